@@ -869,6 +869,10 @@ impl<'a> VisitMut for Rules<'a> {
                     fn visit_expr_lit(&mut self, l: &'ast syn::ExprLit) {
                         if matches!(l.lit, syn::Lit::Float(_)) { self.0 = true; }
                     }
+                    fn visit_pat(&mut self, p: &'ast syn::Pat) {
+                        if let syn::Pat::Path(pp) = p { if is_f64_const_path(&pp.path) { self.0 = true; } }
+                        syn::visit::visit_pat(self, p);
+                    }
                 }
                 let mut f = F(false);
                 syn::visit::Visit::visit_pat(&mut f, p);
@@ -898,6 +902,16 @@ impl<'a> VisitMut for Rules<'a> {
                                     let id = syn::Ident::new(&format!("vx_f{}", *self.k), proc_macro2::Span::call_site());
                                     let lit = l.lit.clone();
                                     self.guards.push(syn::parse_quote!(#id == #lit));
+                                    *p = syn::parse_quote!(#id);
+                                    return;
+                                }
+                            }
+                            if let syn::Pat::Path(pp) = p {
+                                if is_f64_const_path(&pp.path) {
+                                    *self.k += 1;
+                                    let id = syn::Ident::new(&format!("vx_f{}", *self.k), proc_macro2::Span::call_site());
+                                    let path = pp.path.clone();
+                                    self.guards.push(syn::parse_quote!(#id == #path));
                                     *p = syn::parse_quote!(#id);
                                     return;
                                 }
@@ -2023,4 +2037,10 @@ impl<'a> VisitMut for Rules<'a> {
             _ => {}
         }
     }
+}
+
+// R2: a constant pattern `f64::INFINITY` / `f64::NEG_INFINITY` / .. matches with == as well
+fn is_f64_const_path(p: &syn::Path) -> bool {
+    p.segments.len() == 2 && p.segments[0].ident == "f64"
+        && matches!(p.segments[1].ident.to_string().as_str(), "INFINITY" | "NEG_INFINITY" | "EPSILON" | "MAX" | "MIN")
 }
